@@ -16,6 +16,11 @@ import JoblibModel.IOUtil
   resize <max|-> <alive> <started 0|1> <same_args 0|1> <n>
         the reusable executor before a call (`-` = none exists) and the n_jobs asked for
         → <live workers during/after the call> <max_workers>
+  tpool <stmt> …   one ThreadingBackend instance (fresh) serving a history of statements
+        stmt: P<n>:<tasks>                     Parallel(n_jobs=n)(<tasks>)          (n = resolved n_jobs ≥ 1)
+              M<n>:<item>,<item>…              with Parallel(n_jobs=n) as p: items
+              item: o<tasks> = p(<tasks>) | f<m>x<tasks> = another Parallel(n_jobs=m)(<tasks>) on the same instance
+        → one `<n>/<size seen by each task, comma separated, or .>/<_pool after the call or ->` per CALL, then `end:<_pool>`
 Anything else → bad-op. -/
 open JoblibModel JoblibModel.NJobs JoblibModel.IOUtil
 open JoblibModel.Config (BackendClass)
@@ -49,6 +54,40 @@ def parseEff : List String → Option (BackendClass × Option Nat × EffEnv × I
     let ld ← ld.toNat?; let cpus ← cpus.toInt?; let lo ← lo.toInt?; let hi ← hi.toInt?
     pure (c, l, ⟨mn, dm, mt, ld, cpus⟩, lo, hi)
   | _ => none
+
+
+def natAfter (pre : Char) (s : String) : Option Nat :=
+  match s.toList with
+  | c :: rest => if c = pre ∧ !rest.isEmpty then (String.ofList rest).toNat? else none
+  | [] => none
+
+def item? (s : String) : Option TItem :=
+  match s.toList with
+  | 'o' :: rest => if rest.isEmpty then none else (String.ofList rest).toNat?.map TItem.own
+  | 'f' :: rest =>
+    match (String.ofList rest).splitOn "x" with
+    | [m, t] => do let m ← m.toNat?; let t ← t.toNat?; pure (TItem.foreign m t)
+    | _ => none
+  | _ => none
+
+def stmt? (s : String) : Option TCall :=
+  match s.splitOn ":" with
+  | [h, body] =>
+    match h.toList with
+    | 'P' :: _ => do let n ← natAfter 'P' h; let t ← body.toNat?; pure (TCall.plain n t)
+    | 'M' :: _ => do
+      let n ← natAfter 'M' h
+      let items ← (body.splitOn ",").mapM item?
+      pure (TCall.managed n items)
+    | _ => none
+  | _ => none
+
+def showPool : Option Nat → String
+  | none => "-" | some k => toString k
+
+def showObs (o : TObs) : String :=
+  toString o.n ++ "/" ++ (if o.sizes.isEmpty then "." else ",".intercalate (o.sizes.map toString)) ++
+    "/" ++ showPool o.after
 
 def handle (line : String) : String :=
   match tokens line with
@@ -110,6 +149,13 @@ def handle (line : String) : String :=
       let p := submitEnsure (getReusableExecutor cur same n)
       toString p.alive ++ " " ++ toString p.maxWorkers
     | _, _, _, _, _ => "bad-op"
+  | "tpool" :: stmts =>
+    if stmts.isEmpty then "bad-op"
+    else match stmts.mapM stmt? with
+      | some cs =>
+        let r := tRun .asIs TBackend.fresh cs
+        joinSp (r.2.map showObs ++ ["end:" ++ showPool r.1.pool])
+      | none => "bad-op"
   | _ => "bad-op"
 
 def main : IO Unit := lineLoop handle
